@@ -41,7 +41,7 @@ pub fn fresh(cfg: &CfgSpec) -> Built {
     let mut wc = BTreeMap::new();
     wc.insert(1u64, 0u64);
     let ghost = Ghost { paid: BTreeMap::new(), wd, wcount: wc, don_n: "0".into(), don_l: "0".into(), delivered: "0".into(), swept: "0".into() };
-    Built { chain, ghost, last_stake: None, roundtrip: None, fixed_inputs: false, poisoned: false }
+    Built { chain, ghost, last_stake: None, roundtrip: None, fixed_inputs: std::env::var("SYMX_FIXED").is_ok(), poisoned: false }
 }
 
 pub fn hist_case(name: &str, cfg: CfgSpec, steps: Vec<H>) -> Case {
@@ -68,7 +68,7 @@ pub fn hist_case(name: &str, cfg: CfgSpec, steps: Vec<H>) -> Case {
             for (i, h) in steps.iter().enumerate() {
                 match h {
                     H::Advance(secs) => b.chain.advance(*secs),
-                    H::Fix(on) => b.fixed_inputs = *on,
+                    H::Fix(on) => b.fixed_inputs = *on || std::env::var("SYMX_FIXED").is_ok(),
                     H::Try(_) | H::Dyn(_) => {
                         let op = match h {
                             H::Try(op) => Some(op.clone()),
@@ -98,6 +98,7 @@ pub fn hist_case(name: &str, cfg: CfgSpec, steps: Vec<H>) -> Case {
                             }
                             step::post_op(&cx, &b, &op, &out);
                             trace.push(format!("{}:{}", op.name().split('{').next().unwrap_or(""), out.tx.kind()));
+                            symcore::note(format!("m{i}={}", step::behaviour_digest(&out)));
                             if step::channel_orphan(&b, &op, &out) {
                                 symcore::note(format!("outcome=stopped@{i}:orphan"));
                                 symcore::note(format!("detail={}", trace.join(",")));
@@ -114,6 +115,7 @@ pub fn hist_case(name: &str, cfg: CfgSpec, steps: Vec<H>) -> Case {
                         }
                         step::post_op(&cx, &b, op, &out);
                         trace.push(format!("{}:{}", op.name().split('{').next().unwrap_or(""), out.tx.kind()));
+                        symcore::note(format!("m{i}={}", step::behaviour_digest(&out)));
                         if out.tx.is_ok() != *expect_ok {
                             symcore::note(format!("outcome=stopped@{i}:{}", out.tx.kind()));
                             symcore::note(format!("detail={} :: {}", trace.join(","), out.tx.detail()));
